@@ -17,6 +17,9 @@ Definition bytes_eqb := list_eqb N.eqb.
 (* compact notation used by the harness for long byte strings: full 8-byte big-endian
    words followed by the 0..7 remaining bytes *)
 Definition pb (full : list N) (tail : bytes) : bytes := flat_map (be_enc 8) full ++ tail.
+
+(* compact notation for long value lists: first value and wrapped deltas *)
+Definition cum (first : N) (ds : list N) : list N := first :: prefix_sums first ds.
 Definition opt_eqb {A} (eqb : A -> A -> bool) (a b : option A) : bool :=
   match a, b with
   | Some x, Some y => eqb x y
